@@ -1002,7 +1002,9 @@ def memo_soundness(ctx, rule, module_names):
         for (c, m, x, msg) in probs[:2]:
             ci = prog.classes.get(c)
             ctx.finding(rule, f'{c}.{m.name}:stale-memo:{memo.stamp}', ci, x if hasattr(x, 'lineno') else m, msg, where=f'{c}.{m.name}')
-    for mn, tree in trees.items():
+    for mn in trees:
+        # keyed memos are read in the source as written: inlining a helper with a constant argument would hide the very input that is missing
+        tree = ast.parse(prog.modules[mn].src)
         for (cls, fn, st, mt, missing) in memos.keyed_memo_problems(tree):
             n += 1
             ci = prog.classes.get(cls) if cls else None
